@@ -159,3 +159,11 @@ Definition pipe_guard (fs : list pfunc) : bool :=
                        | Some _ => negb (is_object_array_type (f_ret f))
                        | None => true
                        end) fs.
+
+(* the part of the guard needed for "every edge compatible => accepted" (TypeVars allowed) *)
+Definition pipe_guard_accept (fs : list pfunc) : bool :=
+  forallb fn_wf fs
+  && forallb (fun f => match f_ms f with
+                       | Some _ => negb (is_object_array_type (f_ret f))
+                       | None => true
+                       end) fs.
